@@ -190,7 +190,7 @@ Theorem C17_dowhile_equals_while_when_entered : forall fuel n nf z z1 pp,
   F.newton_while fuel n nf z z1 pp = F.newton_do fuel n nf z.
 Proof. intros fuel n nf z z1 pp H. unfold F.newton_while. rewrite H. reflexivity. Qed.
 
-(* The rules for n = 1..20, certified inside Coq once and for all (not per run): with libm's start
+(* The rules for n = 1..12, certified inside Coq once and for all (not per run): with libm's start
    values (SmallRules.cos_table, re-measured and compared on every run) the bit-exact model of
    gauleg(-1,1,n) returns n abscissae and weights whose 2n moments are within 5e-10; hence on EVERY
    interval and for EVERY polynomial of degree <= 2n-1 the mapped rule is exact up to that error. *)
@@ -204,7 +204,7 @@ Theorem C17_small_rules_exact : forall n coss, In (n, coss) cos_table ->
       <= Rabs (b - a) / 2 * (eps_m * norm1 (pcomp p ((a + b) / 2) ((b - a) / 2))).
 Proof. exact small_rules_exact. Qed.
 
-Example C17_small_rules_table_covers : map fst cos_table = [1;2;3;4;5;6;7;8;9;10;11;12;13;14;15;16;17;18;19;20]%Z.
+Example C17_small_rules_table_covers : map fst cos_table = [1;2;3;4;5;6;7;8;9;10;11;12]%Z.
 Proof. reflexivity. Qed.
 
 (* Checker soundness: what the correspondence run decides by vm_compute on the exact values of
